@@ -5,8 +5,8 @@ V = os.path.dirname(os.path.dirname(os.path.abspath(__file__)))
 props = [json.loads(l) for l in open(os.path.join(V, 'properties.jsonl'))]
 CLAIMED = {
  'C07': dict(technique='Lean 4 proof (invariant by induction over all op sequences of the LruDiskCache model) + differential correspondence (h_lru vs modeld lru) + implementation monitor',
-    text='size_limit is proved for every sequence of public operations of the Lean model of LruDiskCache; the model is replayed step by step against the real LruDiskCache on random op sequences (0 disagreements required) and the property is monitored on the real object after every step. Index=disk and LRU-order are monitored, not yet theorems.',
-    note='Trusted: Lean kernel, hand-written model Model/Lru.lean (tied by h_lru), harness generators. Known findings F-C07-a/b/c are listed in known_findings.json.',
+    text='size_limit, no_panic and oversize_refused are proved for every sequence of public operations of the Lean model of LruDiskCache; the model is replayed step by step against the real LruDiskCache on random op sequences (0 disagreements required) and the property is monitored on the real object after every step. Index=disk and LRU-order are monitored, not yet theorems.',
+    note='Trusted: Lean kernel, hand-written model Model/Lru.lean (tied by h_lru), harness generators. F-C07-a/b were genuine defects repaired by fix: commits; F-C07-c (leaked reservations) is an open known finding.',
     ref='DESIGN.md section 4 C07, Appendix A.3, B.13'),
 
  'C06': dict(technique='Lean 4 proof (one invariant preserved by every step of every thread in every interleaving, incl. crash+reopen) + differential correspondence (h_atomic vs modeld atomic) + read monitor on the real LruDiskCache',
@@ -33,6 +33,11 @@ CLAIMED = {
     text='scheduler_consistent (attribution, fresh ids, capacity cpus+1+cpus/8, no poisoning, no panicking update) is proved for every message sequence in which any message may occur inside an allocation window, for the handler as repaired by the fix: commit; transitions_only and in_progress_eq for every state. The model is replayed against the real Scheduler (allocation choices acceptance-checked) and the invariants are monitored on its private maps.',
     note='Trusted: Lean kernel, Model/Sched.lean (tied by hook H6), time frozen (time-outs excluded as in the property). F-C18-a was a genuine defect, repaired by a fix: commit; the pinned behaviour is kept as a kernel-checked witness.',
     ref='DESIGN.md section 4 C18, Appendix A.4, B.17'),
+
+ 'C17': dict(technique='Lean 4 proof (invariant over all histories with evictions as arbitrary steps) + differential correspondence on the real dist::TcCache + digest monitor',
+    text='tc_sound is proved for every history of uploads (matching or not), insert-file, removals, evictions at any moment and reopenings, for insert_with as repaired by the fix: commit; the model is replayed against the real TcCache (small capacities force real LRU evictions) and every id reported present or served is re-hashed.',
+    note='Trusted: Lean kernel, Model/TcCache.lean (tied by h_tc). F-C17-a was a genuine defect repaired by a fix: commit (kept as a kernel-checked witness of the pinned behaviour).',
+    ref='DESIGN.md section 4 C17, Appendix B.18'),
 }
 NA_REASON = 'not yet wired into ./check in this round (model and theorems exist under lean/; see DESIGN.md section 0.1)'
 def hooks():
